@@ -32,8 +32,10 @@ def make_batch_xml(ctx, g, n):
         d, scopes = b.random_document(n_records=g.rng.randint(1, 8))
         doc = w.conts[d]
         ft = g.chance(0.5)
+        w.exported_after = None
         if g.chance(0.2):
             # second chapter: written once, changed in place, and only then written for the record
+            w.exported_after = len(w.ops)
             try:
                 doc.serialize(format="xml", force_types=g.chance(0.5))
             except Exception:  # noqa
@@ -45,15 +47,31 @@ def make_batch_xml(ctx, g, n):
         except Exception as e:  # noqa: a name that XML cannot express
             ctx.count("xml-writer-raised")
             continue
-        docs.append((w, doc, ft, text))
+        try:
+            jtext = doc.serialize(format="json")       # the same document at the same moment, in the other format
+        except Exception:  # noqa
+            jtext = None
+        docs.append((w, doc, ft, text, jtext))
         ctx.evaluations += 1
         if len(doc.records) >= 2:
             ctx.nontrivial(w.ops)
-    abs_docs = specread.spec_read_xml_texts([t for (_w, _d, _o, t) in docs])
+    abs_docs = specread.spec_read_xml_texts([t for (_w, _d, _o, t, _j) in docs])
+    jdocs = [(i, j) for i, (_w, _d, _o, _t, j) in enumerate(docs) if j is not None]
+    abs_json = dict(zip([i for (i, _j) in jdocs], specread.spec_read_json_texts([j for (_i, j) in jdocs]))) if jdocs else {}
     ctx.model_ops += len(docs)
-    for (w, doc, ft, text), got in zip(docs, abs_docs):
+    for i, ((w, doc, ft, text, jtext), got) in enumerate(zip(docs, abs_docs)):
         want = proto.strict_doc(doc)
         ctx.sample({"xml": text[:200]})
+        gj = abs_json.get(i)
+        if (got is not None and not isinstance(got, tuple) and gj is not None and not isinstance(gj, tuple)
+                and got != gj and got == want):
+            # each format agrees with *some* reading of the document, but not with the same one
+            ctx.count("xml-json-disagree")
+            fails.append(Failure("oracle", "C10:name-not-resolvable-in-scope" if unresolvable(doc) else None,
+                                 "the specification readers recover different content from the PROV-XML and the PROV-JSON "
+                                 "written for one document at one moment", {"ops": list(w.ops), "ft": ft, "format": "xml+json",
+                                                                            "exported_after": w.exported_after}))
+            continue
         if got == want:
             continue
         bad = unresolvable(doc)
@@ -144,6 +162,22 @@ def oracle_only(ctx):
 
 def replay(ctx, case):
     from .replay_ops import replay_ops
+    if case.get("format") == "xml+json":
+        ops = [o for o in case["ops"] if o["op"] != "obs"]
+        k = case.get("exported_after")
+        k = len(ops) if k is None else len([o for o in case["ops"][:k] if o["op"] != "obs"])
+        w = replay_ops(ops[:k])
+        d = next(c for c, o in w.conts.items() if o.is_document())
+        doc = w.conts[d]
+        if k < len(ops):
+            doc.serialize(format="xml")
+            replay_ops(ops[k:], w)
+        gx = specread.spec_read_xml_texts([doc.serialize(format="xml", force_types=case.get("ft", False))])[0]
+        gj = specread.spec_read_json_texts([doc.serialize(format="json")])[0]
+        if gx != gj:
+            return [Failure("oracle", "C10:name-not-resolvable-in-scope" if unresolvable(doc) else None,
+                            "the specification readers recover different content from PROV-XML and PROV-JSON", case)]
+        return []
     w = replay_ops(case["ops"])
     d = next(c for c, o in w.conts.items() if o.is_document())
     doc = w.conts[d]
